@@ -114,6 +114,17 @@ def pdu_kind(pdu) -> str:
     }[pdu.directive_type]
 
 
+def _fname(pdu, attr):
+    """File name field of a Metadata PDU (a name that is not UTF-8 is shown as its bytes' repr)."""
+    lv = getattr(pdu, attr)
+    if lv.value_len == 0:
+        return None
+    try:
+        return bytes(lv.value).decode()
+    except UnicodeDecodeError:
+        return repr(bytes(lv.value))
+
+
 def pdu_info(pdu) -> tuple:
     """Canonical decisive fields of a PDU (without header)."""
     k = pdu_kind(pdu)
@@ -124,8 +135,8 @@ def pdu_info(pdu) -> tuple:
         return (
             k,
             pdu.file_size,
-            pdu.source_file_name,
-            pdu.dest_file_name,
+            _fname(pdu, "_source_file_name_lv"),
+            _fname(pdu, "_dest_file_name_lv"),
             int(pdu.checksum_type),
             bool(pdu.closure_requested),
             0 if not opts else len(opts),
